@@ -181,6 +181,7 @@ type Enc struct {
 	usedContracts map[string]bool
 	immut map[string]bool
 	baseAlloc map[string]Term
+	protected map[string][]Term // heap key -> refs whose entries survive havocs
 	fieldInfo map[string]fieldRef
 }
 
@@ -670,6 +671,23 @@ func (e *Enc) havocAll(st *State) {
 	for k := range e.immutableKeys() {
 		keep[k] = e.heapGet(st, k)
 	}
+	oldProt := map[string]Term{}
+	for k := range e.protected {
+		oldProt[k] = e.heapGet(st, k)
+	}
+	defer func() {
+		var ks []string
+		for k := range oldProt {
+			ks = append(ks, k)
+		}
+		sort.Strings(ks)
+		for _, k := range ks {
+			nh := e.heapGet(st, k)
+			for _, r := range e.protected[k] {
+				e.assume(tTrue, T(SBool, "(= (select %s %s) (select %s %s))", nh.S, r.S, oldProt[k].S, r.S))
+			}
+		}
+	}()
 	st.heaps = keep
 	st.base = fmt.Sprintf("h%d", e.nfresh)
 	na := e.heapGet(st, "$alloc")
